@@ -43,8 +43,16 @@ def run(chk, facts, tier):
                 ats = guard_atoms(fn, c)
                 new = sn_eq_expected(ats, '==')
                 nonempty = any(op == '!=' and cval(r) == 0 and not isinstance(l, int) and l.k == 'BinaryOperator' and l.o == '&' and cval(l.c[1]) == 0xff00 for l, op, r in ats)
-                ok = new and nonempty and len(ats) == 2 and len(fn.body.calls('increment_receive_packet_counter')) == 1
-                chk.instance('rx-counter-site', fn, 'increment_receive_packet_counter() under exactly (SN == expected) && (length != 0)', ok, '' if ok else 'guards: new=%s length!=0=%s, %d further condition(s): a new non-empty PDU that the central encrypted with the next counter value is not counted (or a retransmission/empty PDU is), the nonces of both sides diverge' % (new, nonempty, len(ats) - 2), node=c, key='rx in received')
+                def is_new(a):
+                    return sn_eq_expected([a], '==')
+
+                def is_nonempty(a):
+                    l, op, r = a
+                    return op == '!=' and cval(r) == 0 and not isinstance(l, int) and l.k == 'BinaryOperator' and l.o == '&' and cval(l.c[1]) == 0xff00
+                from .lib.match import _expand_local_flags
+                extra = [a for a in ats if not is_new(a) and not is_nonempty(a) and not _expand_local_flags(fn, [a])]
+                ok = new and nonempty and not extra and len(fn.body.calls('increment_receive_packet_counter')) == 1
+                chk.instance('rx-counter-site', fn, 'increment_receive_packet_counter() under exactly (SN == expected) && (length != 0)', ok, '' if ok else 'guards: new=%s length!=0=%s, %d further condition(s): a new non-empty PDU that the central encrypted with the next counter value is not counted (or a retransmission/empty PDU is), the nonces of both sides diverge' % (new, nonempty, len(extra)), node=c, key='rx in received')
                 togg = [st for tgt, op, val, st in stores(fn.body) if target_name(tgt) == 'next_expected_sequence_number_']
                 ok2 = len(togg) == 1 and precedes(fn, togg[0], c)
                 chk.instance('nesn-toggle-counts', fn, 'NESN toggle precedes counter increment', ok2, '' if ok2 else 'counter may advance without the PDU being acknowledged', node=c, key='toggle->count')
